@@ -36,10 +36,14 @@ pub struct Adm {
     pub send_buf: usize,
     pub local_enabled: bool,
     pub size: usize,
+    /// connection-ID lengths of (client = sender, server = peer); short headers carry the peer's
+    pub cids: (usize, usize),
 }
 
 fn adm_cfg(a: &Adm) -> PairCfg {
     let mut c = cfg_by_name("default");
+    c.cid_len = a.cids.0;
+    c.server_cid_len = Some(a.cids.1);
     c.server.dgram_recv = Some(a.peer_buf);
     c.client.dgram_send = Some(a.send_buf);
     if !a.local_enabled {
@@ -239,7 +243,7 @@ pub fn run_adm(base: Instant, a: &Adm) -> Result<AdmOut, String> {
 /// Two datagrams handed to send() back to back (they may share a packet): sizes `a` then `b`.
 pub fn run_pair(base: Instant, mtu: &MtuState, a: usize, b: usize) -> Result<(Vec<(String, String)>, bool), String> {
     guarded(|| {
-        let adm = Adm { mtu: mtu.clone(), peer_buf: Some(65535), send_buf: 1024 * 1024, local_enabled: true, size: 0 };
+        let adm = Adm { mtu: mtu.clone(), peer_buf: Some(65535), send_buf: 1024 * 1024, local_enabled: true, size: 0, cids: (8, 8) };
         let cfg = adm_cfg(&adm);
         let mut p = establish(base, &cfg, mtu);
         let cch = p.cch;
@@ -502,7 +506,7 @@ pub fn main(args: &Args) -> ! {
     let base = Instant::now();
     let mut rep = Report::new("C16", args, "model_checking");
     let dl = deadline(if thorough { 1500 } else { 50 });
-    rep.rule = "E3: (a) admission: for EVERY datagram size from 0 to max_size()+2 x MTU state {initial 1200, after discovery 1452, after black-hole fallback, initial with 2-byte packet numbers (140 packets unacknowledged)} x peer max_datagram_frame_size {absent, 1, 100, 1200, 65535} x send buffer {0, size-1, size, default} x local support on/off, send() must accept exactly when size <= min(max_size(), send buffer), the reported maximum must fit one packet on the current path and the peer's limit (independent arithmetic), an accepted datagram must appear exactly once on the wire in one DATAGRAM frame inside a UDP datagram <= current MTU and arrive byte-identical; (a2) two datagrams handed over back to back (first 1/100/700 bytes, second EVERY size around the space the first leaves in the packet, at MTU 1200 and 1452): no UDP datagram above the MTU, both arrive intact and in order; (b) queue: every sequence of length <= d over send(len, drop), flush, recv, buffer-space query with len in {1, B/3, B/2, B} against a FIFO-with-byte-budget reference model (Blocked, DatagramsUnblocked, send_buffer_space, oldest-dropped-first on both sides); (c) integrity: E2 with <=k fate deviations over a mixed stream+datagram workload: every received datagram is byte-identical to one sent, each at most once. Non-trivial = admission cells at or next to a boundary, queue sequences with distinct answer traces; distinct counts those.".into();
+    rep.rule = "E3: (a) admission: for EVERY datagram size from 0 to max_size()+2 x MTU state {initial 1200, after discovery 1452, after black-hole fallback, initial with 2-byte packet numbers (140 packets unacknowledged)} x peer max_datagram_frame_size {absent, 1, 100, 1200, 65535} x send buffer {0, size-1, size, default} x local support on/off, and for unequal connection-ID lengths of the two peers (8/20, 0/20, 20/0, 20/8, 4/18) around the maximum, send() must accept exactly when size <= min(max_size(), send buffer), the reported maximum must fit one packet on the current path and the peer's limit (independent arithmetic), an accepted datagram must appear exactly once on the wire in one DATAGRAM frame inside a UDP datagram <= current MTU and arrive byte-identical; (a2) two datagrams handed over back to back (first 1/100/700 bytes, second EVERY size around the space the first leaves in the packet, at MTU 1200 and 1452): no UDP datagram above the MTU, both arrive intact and in order; (b) queue: every sequence of length <= d over send(len, drop), flush, recv, buffer-space query with len in {1, B/3, B/2, B} against a FIFO-with-byte-budget reference model (Blocked, DatagramsUnblocked, send_buffer_space, oldest-dropped-first on both sides); (c) integrity: E2 with <=k fate deviations over a mixed stream+datagram workload: every received datagram is byte-identical to one sent, each at most once. Non-trivial = admission cells at or next to a boundary, queue sequences with distinct answer traces; distinct counts those.".into();
     // (a)
     let mut cases = vec![];
     for mtu in [MtuState::Initial, MtuState::Discovered, MtuState::FellBack, MtuState::LongPn] {
@@ -524,8 +528,18 @@ pub fn main(args: &Args) -> ! {
                     if !thorough && sb != 1024 * 1024 && size % 5 != 0 && size + 50 < top {
                         continue;
                     }
-                    cases.push(Adm { mtu: mtu.clone(), peer_buf, send_buf: sb, local_enabled: en, size });
+                    cases.push(Adm { mtu: mtu.clone(), peer_buf, send_buf: sb, local_enabled: en, size, cids: (8, 8) });
                 }
+            }
+        }
+    }
+    // unequal connection-ID lengths: the short header carries the PEER's CID, so the room for a
+    // datagram depends on the peer's choice, not on ours
+    for cids in [(8usize, 20usize), (0, 20), (20, 0), (20, 8), (4, 18)] {
+        for mtu in [MtuState::Initial, MtuState::Discovered] {
+            let top = if mtu == MtuState::Discovered { 1452 } else { 1200 };
+            for size in (top - 60)..=top {
+                cases.push(Adm { mtu: mtu.clone(), peer_buf: Some(65535), send_buf: 1024 * 1024, local_enabled: true, size, cids });
             }
         }
     }
@@ -536,7 +550,7 @@ pub fn main(args: &Args) -> ! {
     let mut unreached = 0u64;
     for (a, r) in &res {
         rep.evaluations += 1;
-        let rj = json!({"check":"c16","kind":"adm","mtu":format!("{:?}",a.mtu),"peer_buf":a.peer_buf,"send_buf":a.send_buf,"enabled":a.local_enabled,"size":a.size});
+        let rj = json!({"check":"c16","kind":"adm","mtu":format!("{:?}",a.mtu),"peer_buf":a.peer_buf,"send_buf":a.send_buf,"enabled":a.local_enabled,"size":a.size,"cids":[a.cids.0,a.cids.1]});
         match r {
             Err(e) => rep.violation(Violation { signature: "panic".into(), what: format!("{a:?}: panic: {e}"), replay: rj }),
             Ok(o) => {
@@ -732,6 +746,7 @@ fn replay(v: &Value) -> ! {
                 send_buf: r["send_buf"].as_u64().unwrap_or(0) as usize,
                 local_enabled: r["enabled"].as_bool().unwrap_or(true),
                 size: r["size"].as_u64().unwrap_or(0) as usize,
+                cids: (r["cids"][0].as_u64().unwrap_or(8) as usize, r["cids"][1].as_u64().unwrap_or(8) as usize),
             };
             match run_adm(Instant::now(), &a) {
                 Err(e) => println!("PANIC {e}"),
